@@ -84,7 +84,6 @@ Definition Pending05 (w : world) (o : op) : bool :=
   match o with
   | OpCopy _ _ | OpCopyAt _ _ _ | OpMove _ _ | OpMoveAt _ _ _
   | OpSetItemName _ _ => true
-  | OpRemoveFile m f => last_file w m f
   | _ => false
   end.
 
@@ -92,7 +91,6 @@ Definition Pending05 (w : world) (o : op) : bool :=
 Definition Pending45 (w : world) (o : op) : bool :=
   match o with
   | OpCopy _ _ | OpCopyAt _ _ _ | OpMove _ _ | OpMoveAt _ _ _ => true
-  | OpRemoveFile m f => last_file w m f
   | _ => false
   end.
 
@@ -107,7 +105,6 @@ Definition Pending45m (w : world) (o : op) : bool :=
   match o with
   | OpCopy _ _ | OpCopyAt _ _ _ => true
   | OpMove h mv | OpMoveAt h mv _ => negb (simple_move w h mv)
-  | OpRemoveFile m f => last_file w m f
   | _ => false
   end.
 
